@@ -86,6 +86,47 @@ func loadProg(repo string, tags string, overlay map[string][]byte) *Prog {
 		for _, f := range pk.Syntax {
 			p.NFiles++
 			for _, d := range f.Decls {
+				if gd, ok := d.(*ast.GenDecl); ok && gd.Tok == token.VAR {
+					// function literals in package-level variable initialisers (cobra commands...) become pseudo-functions
+					for _, sp := range gd.Specs {
+						vs, ok := sp.(*ast.ValueSpec)
+						if !ok || len(vs.Names) == 0 {
+							continue
+						}
+						k := 0
+						for _, val := range vs.Values {
+							var visit func(n ast.Node) bool
+							visit = func(n ast.Node) bool {
+								lit, ok := n.(*ast.FuncLit)
+								if !ok {
+									return true
+								}
+								sig, _ := pk.TypesInfo.TypeOf(lit).(*types.Signature)
+								if sig == nil {
+									return false
+								}
+								k++
+								name := "var." + vs.Names[0].Name + "#lit" + itoa(k)
+								obj := types.NewFunc(lit.Pos(), pk.Types, name, sig)
+								fi := &FuncInfo{ID: strings.TrimPrefix(pk.PkgPath, modPrefix) + "." + name, Obj: obj, Pkg: pk,
+									Decl: &ast.FuncDecl{Name: ast.NewIdent(name), Type: lit.Type, Body: lit.Body}}
+								ast.Inspect(lit.Body, func(m ast.Node) bool {
+									if l, ok := m.(*ast.FuncLit); ok {
+										fi.Lits = append(fi.Lits, l)
+										p.litOwner[l] = fi
+									}
+									return true
+								})
+								p.funcs[fi.ID] = fi
+								p.byObj[obj] = fi
+								p.NFuncs++
+								return false
+							}
+							ast.Inspect(val, visit)
+						}
+					}
+					continue
+				}
 				fd, ok := d.(*ast.FuncDecl)
 				if !ok {
 					continue
